@@ -111,12 +111,21 @@
      I4  A converted core is restored even when the conversion added no assembly (core = centre assembly only) and
          when there is no centre assembly (hole at 001-001): `conv`, not "the list of added assemblies is non-empty".
      I5  The centre's parameters are multiplied by 3 whatever the history of parameter-assignment flags.
+     I6  scaleParamsRelatedToSymmetry belongs to the edge round trip as the converter is used (add ; [solve] ; scale ; remove).
+         It is modelled for a third core only (the code would happily pair the 0- and 120-degree lines of a full core; that
+         call has no meaning and is outside the alphabet).  Where it pairs assemblies of DIFFERENT origin (edge assemblies
+         that were in the model from the start) the result is no multiple of the built values: the scale becomes Mixed,
+         is projected as <<0, 0>> and the parameter totals are not compared (parOk) until a Solve overwrites it.
+         Solve stands for the flux solve: it assigns; what it writes is an input of the action.  After a Solve or an effective
+         ScaleParams (`touched`) the clauses about "the same parameters" are compared on structure only -- except along the two
+         named flows, whose laws are EdgesScaleRoundTrip and HalvesCombine.
 
-   WHERE armi (tree at the time of writing) LEAVES THIS REFERENCE -- each reproduced on the real code by props/c13.py
-     D1 (I5) convert() scales only the volume-integrated parameters "assigned since the last geometry transformation";
-             addEdgeAssemblies() clears that flag, so AddEdges (adding nothing) ; Convert leaves the centre unscaled.
-     D2 (I4) centre-only core: Convert ; Restore leaves the core full and the centre multiplied by 3.
-     D3 (I4) no centre assembly: Restore raises TypeError after removing the added assemblies.
+   WHERE armi LEFT THIS REFERENCE when the check was built -- each reproduced on the real code by props/c13.py, since repaired
+   in /repo (fix: commits 1074268, 36d9bf3, 63ac587)
+     D1 (I5) convert() scaled only the volume-integrated parameters "assigned since the last geometry transformation";
+             addEdgeAssemblies() clears that flag, so AddEdges (adding nothing) ; Convert left the centre unscaled.
+     D2 (I4) centre-only core: Convert ; Restore left the core full and the centre multiplied by 3.
+     D3 (I4) no centre assembly: Restore raised TypeError after removing the added assemblies.
    NOT A CLAUSE OF THE STATEMENT, but seen on the way (Obs.vqv / volOk): Assembly.getVolume is the cached area of the first
    block times the height, and addEdgeAssemblies / removeEdgeAssemblies refresh that cache only on the 0-degree line; an
    original assembly that already sits on the 120-degree line keeps reporting its old volume when the innermost edge cell
@@ -126,8 +135,9 @@
    CONFIGURATIONS (SymmetryConversion_mc.tla)
      _mc.cfg           all 255 loading patterns of a 3-ring third core (7 cells + the edge cell), call sequences <= 4
      _mc_thorough.cfg  510 patterns over lines-to-ring-5 + centre + interior cells (alone / inside a 4-ring core), <= 5 calls
-     _emit*.cfg        the graphs that are walked through the real converters (10 hand-picked / 255 patterns, <= 3 calls)
+     _emit*.cfg        the graphs that are walked through the real converters (8 hand-picked / 255 patterns, <= 3 calls)
      _lit.cfg          the literal restore clause (I2), expected to be refuted
+     _witness_*.cfg    non-vacuity: the flows add ; solve ; scale ; remove and add ; scale ; remove are reachable (refuted)
      _trace*.cfg       batch validation of recorded histories (5-ring generated cores; the 9-ring test reactor)
 *)
 EXTENDS SymLattice, Rational, TLC, Json
